@@ -320,6 +320,23 @@ def superfluous(ref):
     return False
 
 
+PREFIX_GROUPS = [(0xF0,), (0xF2, 0xF3), (0x2E, 0x36, 0x3E, 0x26, 0x64, 0x65), (0x66,), (0x67,)]
+
+
+def repeated_prefix(b):
+    """two prefix bytes of the same group in front of one opcode (lock lock, two segment overrides, f2 f3): at least one of
+    them has no effect, whatever the text shows"""
+    seen = set()
+    for x in bytes(b):
+        g = [k for k, grp in enumerate(PREFIX_GROUPS) if x in grp]
+        if not g:
+            return False
+        if g[0] in seen:
+            return True
+        seen.add(g[0])
+    return False
+
+
 def canon_prefixes(ins):
     out = set()
     for p in ins.prefixes:
